@@ -11,7 +11,7 @@ from lib.engine import R, V, enum_part, hyp_part
 
 ID = 'C10'
 RULE = ('durations: N in 1..5000 (every N for the seven units in the thorough tier) x unit second..year, singular/plural, carriers; explicit '
-        'ranges "from A to B" / "between A and B" over ordered pairs of absolute dates (4 layouts), unambiguous clock times and date-times; '
+        'ranges "from A to B" / "between A and B" over ordered pairs of absolute dates (4 layouts), unambiguous clock times (incl. noon/midnight and pairs crossing midnight) and date-times, under reference datetimes 1950-2090; '
         'corpus clause: every value with a (start,end,duration) TIMEX that the date-time model produces on the Python-supported Specs inputs '
         'of all eight cultures; non-trivial = duration with N >= 60, or a range crossing a month/year boundary, or a corpus call that produced '
         'a (start,end,duration) triple; distinct = (culture, query, reference)')
@@ -125,6 +125,8 @@ DATE_LAYOUTS = ['iso', 'Month d, yyyy', 'm/d/yyyy', 'd Month yyyy']
 def time_text(t):
     """t = [h24, m, style] -> unambiguous clock time text"""
     h, m, style = t
+    if style == 'word':
+        return {(12, 0): 'noon', (0, 0): 'midnight'}[(h, m)]
     if style == '24':
         return '%02d:%02d' % (h, m)
     suffix = 'am' if h < 12 else 'pm'
@@ -160,13 +162,14 @@ def pred_feb29_endpoint_other_year(case, v):
     return da.year != db.year and ((da.month, da.day) == (2, 29) or (db.month, db.day) == (2, 29))
 
 
-def pred_midnight_hour_then_pm(case, v):
-    """known finding: a first time point in hour 0 written in 24-hour style followed by an am/pm time point
-    ('from 00:00 to 1pm' -> start 12:00): the 'from 4 to 5pm' heuristic shifts the unmarked first hour by 12"""
+def pred_midnight_hour_with_ampm_partner(case, v):
+    """known finding: a time point in hour 0 written in 24-hour style combined with an am/pm time point
+    ('from 00:00 to 1pm' -> start 12:00, 'from 1:02am to 00:01' -> end 12:01): the unmarked hour is shifted by 12 by the
+    'from 4 to 5pm' heuristic although 00:xx can only be a 24-hour time"""
     if 'a' not in case or case['a']['kind'] == 'date':
         return False
     ta, tb = case['a']['time'], case['b']['time']
-    return ta[2] == '24' and ta[0] == 0 and tb[2] != '24'
+    return (ta[2] == '24' and ta[0] == 0 and tb[2] != '24') or (tb[2] == '24' and tb[0] == 0 and ta[2] != '24')
 
 
 def run_range(case):
@@ -200,8 +203,9 @@ def run_range(case):
         da, db = dt.date.fromisoformat(case['a']['date']), dt.date.fromisoformat(case['b']['date'])
         nt = (da.year, da.month) != (db.year, db.month)
     else:
-        nt = case['a']['time'][1] != 0 or case['b']['time'][1] != 0
-    return R(vs, nontrivial=nt, labels=['range:' + kind, case['frame']], obs={'query': q, 'entities': got}, key=['en-us', q])
+        nt = case['a']['time'][1] != 0 or case['b']['time'][1] != 0 or case['a']['time'][:2] > case['b']['time'][:2]
+    overnight = kind == 'time' and case['a']['time'][:2] > case['b']['time'][:2]
+    return R(vs, nontrivial=nt, labels=['range:' + kind, case['frame']] + (['overnight'] if overnight else []), obs={'query': q, 'entities': got}, key=['en-us', q, case['ref']])
 
 
 # ---- corpus clause --------------------------------------------------------------------------------------------------------
@@ -231,7 +235,7 @@ def run_any(case):
 
 
 PREDICATES = {'c10_feb29_endpoint_other_year': pred_feb29_endpoint_other_year,
-              'c10_midnight_hour_then_pm': pred_midnight_hour_then_pm}
+              'c10_midnight_hour_with_ampm_partner': pred_midnight_hour_with_ampm_partner}
 
 
 # ---- generators -----------------------------------------------------------------------------------------------------------
@@ -258,27 +262,35 @@ def range_cases():
     dates = st.builds(date_pair, G.dates(), gaps, lay, lay)
     style = st.sampled_from(['24', 'ampm', 'ampm-blank', 'ampm-minutes'])
 
-    def time_pair(t1, t2, s1, s2):
+    def time_pair(t1, t2, s1, s2, overnight):
         a, b = sorted([t1, t2])
         if a == b:
             b = (a + 61) % 1440
             a, b = sorted([a, b])
+        if overnight:
+            a, b = b, a         # 'from 11pm to 2am': an ordered pair that crosses midnight
         # a 24-hour spelling is unambiguous only for hour 0 or >= 13
         def fix(t, s):
             h = t // 60
+            if t in (0, 720) and s in ('ampm-minutes',):
+                s = 'word'      # 'midnight' / 'noon'
             if s == '24' and 1 <= h <= 12:
                 s = 'ampm'
             return [h, t % 60, s]
         return ({'kind': 'time', 'time': fix(a, s1)}, {'kind': 'time', 'time': fix(b, s2)})
     minute = st.one_of(st.integers(0, 1439), st.sampled_from([0, 60, 600, 610, 660, 671, 720, 780, 1380, 1439]))
-    times = st.builds(time_pair, minute, minute, style, style)
+    times = st.builds(time_pair, minute, minute, style, style, st.sampled_from([False, False, True]))
+    times_day = st.builds(time_pair, minute, minute, style, style, st.just(False))
 
     def dt_pair(dp, tp):
         (a, b), (ta, tb) = dp, tp
-        return (dict(a, kind='datetime', time=ta['time']), dict(b, kind='datetime', time=tb['time']))
-    dts = st.builds(dt_pair, dates, times)
-    return st.builds(lambda p, f, ci: {'a': p[0], 'b': p[1], 'frame': f, 'carrier': RANGE_CARRIERS[ci], 'ref': REF0},
-                     st.one_of(dates, times, dts), st.sampled_from(['from-to', 'between-and']), st.integers(0, 3))
+
+        def noword(t):
+            return [t[0], t[1], 'ampm' if t[2] == 'word' else t[2]]     # '<date> midnight' is not a date-time expression
+        return (dict(a, kind='datetime', time=noword(ta['time'])), dict(b, kind='datetime', time=noword(tb['time'])))
+    dts = st.builds(dt_pair, dates, times_day)
+    return st.builds(lambda p, f, ci, r: {'a': p[0], 'b': p[1], 'frame': f, 'carrier': RANGE_CARRIERS[ci], 'ref': r},
+                     st.one_of(dates, times, times, dts), st.sampled_from(['from-to', 'between-and']), st.integers(0, 3), G.refs())
 
 
 def corpus_cases(frac, seed):
